@@ -418,6 +418,8 @@ func c17Programs(thorough bool) []c17Program {
 	// a2 and a3 have lengths that are not a multiple of 8 and non-zero bits in the partial octet
 	a1, a2, a3 := c17Adv{Pfx: "10.0.0.1/32"}, c17Adv{Pfx: "192.168.10.128/25"}, c17Adv{Pfx: "10.1.2.192/26"}
 	bad := c17Adv{Pfx: "10.9.9.9/32", Invalid: true}
+	// two prefixes with one network address and different lengths (an aggregate and a host route)
+	b24, b32 := c17Adv{Pfx: "10.0.7.0/24"}, c17Adv{Pfx: "10.0.7.0/32"}
 	a1c := c17Adv{Pfx: "10.0.0.1/32", LP: 200, Comm: []uint32{0xfde80001}}
 	a1lp1, a1lp2 := c17Adv{Pfx: "10.0.0.1/32", LP: 100}, c17Adv{Pfx: "10.0.0.1/32", LP: 200}
 	a1cm1, a1cm2 := c17Adv{Pfx: "10.0.0.1/32", Comm: []uint32{0xfde80001}}, c17Adv{Pfx: "10.0.0.1/32", Comm: []uint32{0xfde80002}}
@@ -445,6 +447,9 @@ func c17Programs(thorough bool) []c17Program {
 		{Name: "set-ABC;refused-set(A,bad,B,C);drop1", Sets: [][]c17Adv{{a1, a2, a3}, {a1, bad, a2, a3}}, Drops: 1},
 		{Name: "set-A;set-B;refused-set(bad,A);drop1", Sets: [][]c17Adv{A, {a2, a3}, {bad, a1}}, Drops: 1},
 		{Name: "set-A;refused-set(C,bad);set-AB;no-drop", Sets: [][]c17Adv{{a1}, {a3, bad}, {a1, a2}}},
+		{Name: "set-aggregate+host-route-of-its-network-address;no-drop", Sets: [][]c17Adv{{b24, b32, a1}}},
+		{Name: "set-aggregate;set-host-route-of-its-network-address;drop1", Sets: [][]c17Adv{{b24, a1}, {b32, a1}}, Drops: 1},
+		{Name: "set-host-route;set-aggregate+host-route;set-aggregate;no-drop", Sets: [][]c17Adv{{b32}, {b24, b32}, {b24}}},
 		{Name: "ibgp;set-A;set-B;set-attr-change;close;no-drop", Sets: [][]c17Adv{A, {a2, a3}, {a2, a3, a1c}}, Close: true, IBGP: true},
 	}
 	return progs
@@ -498,7 +503,13 @@ func TestVerif_C17(t *testing.T) {
 				res.Violate("C17 harness nondeterminism", a+"\n"+b, prog)
 			}
 		}
-		for b := 0; b <= bound; b++ {
+		pbound := bound
+		if !verifrt.Thorough() && prog.Drops == 0 && prog.Keepalive == 0 && prog.WrongASN == 0 && os.Getenv("VERIF_BOUND") == "" {
+			// programs without environment threads have few scheduling points: one more preemption is affordable
+			// (a caller's Set landing in the middle of the sender's writes needs three)
+			pbound = bound + 1
+		}
+		for b := 0; b <= pbound; b++ {
 			var h *c17H
 			st := verifrt.Explore(b, deadline, mkSched,
 				func(s *verifrt.Sched) { h = &c17H{prog: prog}; c17Body(h)(s) },
